@@ -244,8 +244,11 @@ private:
       if (k == 1) {
         decrement();
         --n;
-      } else if (k < n) {
-        seek_backward();
+      } else if (k <= n) {
+        // consume the k elements up to the beginning of this inner range and
+        // land on the last element of the previous non-empty range
+        this->base_reference() = m_inner_begin_fn(*m_outer);
+        decrement();
         n -= k;
       } else {
         std::advance(this->base_reference(), -n);
